@@ -264,6 +264,8 @@ class AtomGraph:
                 stochastic_allowed=False,
             )
             self.graph.add_edge(node, last_node_id, bond_type=edge_info["bond_type"])
+            # Terminal groups can have more then one atom.
+            self._fill_static_edges(last_node_id)
 
             node_data = self.graph.nodes[node]
             # Since we are fulfilling this termination, we clear the node
